@@ -85,6 +85,7 @@ def crunch(rng, s):
     out = []
     for part in parts:
         if (part[0].isalpha() and len(out) >= 2 and out[-1].strip() == "" and out[-2].isalpha()
+                and not (len(out) >= 3 and out[-3].endswith("&"))        # &HF is a number: its digits must not be glued to a word
                 and "REM" not in split_run(out[-2] + part) and "DATA" not in split_run(out[-2] + part) and rng.random() < 0.7
                 and split_run(out[-2] + part) == split_run(out[-2]) + split_run(part)):
             out.pop()
